@@ -84,7 +84,7 @@ class TalCheck(CheckBase):
             # several files in a scratch directory; main.pt is rendered
             import tempfile
             from ..fs import SCRATCH_BASE
-            tmpdir = tempfile.mkdtemp(prefix="verif-%d-tal-" % os.getpid(),
+            tmpdir = tempfile.mkdtemp(prefix="verif-%07d-tal-" % os.getpid(),
                                       dir=SCRATCH_BASE)
             occ, parts = [], []
             for name in sorted(tmpl["files"]):
